@@ -64,10 +64,10 @@ Ltac step_pair :=
 Lemma to_of (n : N) : Z.to_N (Z.of_N n) = n.
 Proof. apply N2Z.id. Qed.
 
-Lemma strict_hash r a rr g b : spec_colour_strict (35%N :: r) = Some (a, rr, g, b) ->
+Lemma strict_hash r a rr g b : strict_hex r = Some (a, rr, g, b) ->
   color_html r = Some (mkcol a rr g b).
 Proof.
-  unfold spec_colour_strict, color_html.
+  unfold strict_hex, hexpair, color_html.
   destruct r as [|r1 [|r2 r]]; try discriminate.
   destruct r as [|g1 [|g2 r]]; try discriminate.
   { destruct (hexval r1) eqn:H1; [|discriminate]. destruct (hexval r2) eqn:H2; [|discriminate].
@@ -87,4 +87,175 @@ Proof.
   destruct (hexval b1) eqn:H5; [|discriminate]. destruct (hexval b2) eqn:H6; [|discriminate].
   destruct (hexval a1) eqn:H7; [|discriminate]. destruct (hexval a2) eqn:H8; [|discriminate].
   intros E; inversion E; subst. do 4 step_pair. cbn [html_pairs]. rewrite !to_of. reflexivity.
+Qed.
+
+(* ---- the eight names ---- *)
+Lemma map_lower_firstn n t : map lower (firstn n t) = firstn n (lowers t).
+Proof. unfold lowers. symmetry. apply firstn_map. Qed.
+
+Lemma skipn_len_nil (t lit : bytes) : lowers t = lit -> skipn (List.length lit) t = [].
+Proof. intros H. apply skipn_all2. rewrite <- H. unfold lowers. rewrite map_length. lia. Qed.
+
+Lemma strict_name_ok t a r g b :
+  strict_name strict_names (lowers t) = Some (a, r, g, b) -> color_by_name color_names t = Some (mkcol a r g b).
+Proof.
+  unfold strict_names, strict_name.
+  repeat match goal with
+  | |- (if beq (lowers t) ?lit then _ else _) = _ -> _ =>
+    destruct (beq (lowers t) lit) eqn:E;
+    [ apply beq_eq in E; intros R; inversion R; subst; clear R;
+      unfold color_names, color_by_name;
+      rewrite !ncaseeq_firstn, !map_lower_firstn, E;
+      repeat match goal with |- context [skipn ?k t] =>
+        first [ rewrite (skipn_len_nil t _ E) | fail 1 ] end;
+      try reflexivity
+    | clear E ]
+  end.
+  all: try discriminate.
+Qed.
+
+Lemma strict_parse t a r g b : spec_colour_strict t = Some (a, r, g, b) ->
+  color_parse (Some t) = Some (mkcol a r g b).
+Proof.
+  unfold spec_colour_strict, color_parse. destruct t as [|c t]; [discriminate|].
+  destruct (N.eqb c 35); [apply strict_hash | apply strict_name_ok].
+Qed.
+
+(* ---- print and parse again ---- *)
+Definition bounded (c : color) : Prop := (c_a c < 256 /\ c_r c < 256 /\ c_g c < 256 /\ c_b c < 256)%N.
+
+Lemma sweep16 : forallb (fun n => match hexval (hexdig n) with Some m => N.eqb m n | None => false end)
+                        (map N.of_nat (seq 0 16)) = true.
+Proof. vm_compute. reflexivity. Qed.
+Lemma hexval_hexdig n : (n < 16)%N -> hexval (hexdig n) = Some n.
+Proof.
+  intros H. pose proof sweep16 as S. rewrite forallb_forall in S.
+  assert (In n (map N.of_nat (seq 0 16))) as I.
+  { apply in_map_iff. exists (N.to_nat n). split; [apply N2Nat.id|]. apply in_seq. lia. }
+  specialize (S n I). destruct (hexval (hexdig n)); [|discriminate]. apply N.eqb_eq in S. congruence.
+Qed.
+Lemma hexpair_hex2 v : (v < 256)%N -> hexpair (hexdig (v / 16)) (hexdig (v mod 16)) = Some v.
+Proof.
+  intros H. unfold hexpair.
+  assert (v / 16 < 16)%N by (apply N.div_lt_upper_bound; lia).
+  assert (v mod 16 < 16)%N by (apply N.mod_lt; lia).
+  rewrite !hexval_hexdig by assumption. f_equal. symmetry. apply N.div_mod. lia.
+Qed.
+
+Lemma strict_print c : bounded c ->
+  spec_colour_strict (color_print c) = Some (c_a c, c_r c, c_g c, c_b c).
+Proof.
+  intros (A & R & G & B). unfold color_print, spec_colour_strict. cbn [N.eqb Pos.eqb].
+  destruct (N.eqb (c_a c) 255) eqn:E; unfold hex2; cbn [app strict_hex].
+  - rewrite !hexpair_hex2 by assumption. apply N.eqb_eq in E. rewrite E. reflexivity.
+  - rewrite !hexpair_hex2 by assumption. reflexivity.
+Qed.
+
+Theorem print_parse c : bounded c -> color_parse (Some (color_print c)) = Some c.
+Proof.
+  intros H. rewrite (strict_parse _ _ _ _ _ (strict_print c H)). destruct c; reflexivity.
+Qed.
+
+(* an accepted text yields byte components *)
+Lemma conv_uint_le maxv base t v : conv_uint maxv base t = CVal v -> v <= maxv.
+Proof.
+  unfold conv_uint. destruct t; [discriminate|].
+  destruct (numeral base (n :: t)) as [[[neg m] k]|]; [|destruct (all_space (n :: t)); discriminate].
+  destruct (18446744073709551615 <? m); [discriminate|].
+  destruct (neg && negb (m =? 0)); [discriminate|].
+  destruct (maxv <? m) eqn:E; [discriminate|]. intros H; inversion H; subst. apply Z.ltb_ge in E. lia.
+Qed.
+
+Definition all_bytes (l : list N) : Prop := Forall (fun x => (x < 256)%N) l.
+Lemma Forall_firstn' {A} (P : A -> Prop) n l : Forall P l -> Forall P (firstn n l).
+Proof. revert l; induction n; intros l H; cbn; [constructor|]. destruct l; [constructor|]. inversion H; subst. constructor; auto. Qed.
+Lemma Forall_skipn' {A} (P : A -> Prop) n l : Forall P l -> Forall P (skipn n l).
+Proof. revert l; induction n; intros l H; cbn; auto. destruct l; [constructor|]. inversion H; subst. auto. Qed.
+
+Lemma upd_bytes col i v : all_bytes col -> (v < 256)%N -> all_bytes (firstn i col ++ [v] ++ skipn (S i) col).
+Proof.
+  intros H Hv. unfold all_bytes in *. apply Forall_app. split; [apply Forall_firstn'; auto|].
+  apply Forall_app. split; [repeat constructor; auto | apply Forall_skipn'; auto].
+Qed.
+
+Lemma html_pairs_bytes fuel txt col i res : all_bytes col -> html_pairs fuel txt col i = Some res -> all_bytes res.
+Proof.
+  revert txt col i. induction fuel; intros txt col i H; cbn [html_pairs].
+  - intros E; inversion E; subst; auto.
+  - destruct txt as [|c0 rest]; [intros E; inversion E; subst; auto|].
+    destruct (N.eqb c0 0); [intros E; inversion E; subst; auto|].
+    destruct rest as [|c1 rest']; [discriminate|].
+    destruct (N.eqb c1 0); [discriminate|].
+    destruct (conv_uint 255 16 [c0; c1]) eqn:C; try discriminate; try (apply IHfuel; assumption).
+    apply IHfuel. apply upd_bytes; auto.
+    apply conv_uint_le in C. lia.
+Qed.
+
+Lemma color_html_bounded r c : color_html r = Some c -> bounded c.
+Proof.
+  unfold color_html. destruct (html_pairs 4 r [0; 0; 0; 255]%N 0) as [res|] eqn:E; [|discriminate].
+  apply html_pairs_bytes in E; [|repeat constructor; reflexivity].
+  destruct res as [|x0 [|x1 [|x2 [|x3 [|x4 res]]]]]; try discriminate.
+  intros H; inversion H; subst. unfold bounded; cbn.
+  inversion E as [|? ? A0 E1]; subst. inversion E1 as [|? ? A1 E2]; subst.
+  inversion E2 as [|? ? A2 E3]; subst. inversion E3 as [|? ? A3 E4]; subst. auto.
+Qed.
+
+Lemma color_by_name_in tab t c : color_by_name tab t = Some c -> In c (map snd tab).
+Proof.
+  induction tab as [|[n x] tab]; cbn; [discriminate|].
+  destruct (ncaseeq (List.length n) n t && _); [intros E; inversion E; subst; auto | auto].
+Qed.
+
+Lemma color_parse_bounded t c : color_parse t = Some c -> bounded c.
+Proof.
+  unfold color_parse. destruct t as [[|x r]|].
+  - intros E; inversion E; subst. unfold bounded; cbn; lia.
+  - destruct (N.eqb x 35); [apply color_html_bounded|].
+    intros E. apply color_by_name_in in E. cbn in E.
+    repeat (destruct E as [E|E]; [subst; unfold bounded; cbn; lia|]). contradiction.
+  - intros E; inversion E; subst. unfold bounded; cbn; lia.
+Qed.
+
+(* colour_print_parse: an accepted colour text denotes the same colour when printed and parsed again *)
+Theorem accepted_print_parse t c : color_parse t = Some c -> color_parse (Some (color_print c)) = Some c.
+Proof. intros H. apply print_parse. eapply color_parse_bounded; eauto. Qed.
+
+(* ---- the setter against the specification ---- *)
+Definition col_apply (cur : color) (s : source) : bool * color :=
+  match den_col s with
+  | DVal (PCol a r g b) => (true, mkcol a r g b)
+  | DKeep => (true, cur)
+  | _ => (false, cur)
+  end.
+
+Lemma pcol_eta c : mkcol (c_a c) (c_r c) (c_g c) (c_b c) = c.
+Proof. destruct c; reflexivity. Qed.
+
+Lemma parse_or_strict cur t :
+  match (match spec_colour_strict t with
+         | Some (a, r, g, b) => DVal (PCol a r g b)
+         | None => match color_parse (Some t) with Some c => DVal (pcol c) | None => DRefuse end
+         end) with
+  | DVal (PCol a r g b) => (true, mkcol a r g b)
+  | DKeep => (true, cur)
+  | _ => (false, cur)
+  end = match color_parse (Some t) with Some c => (true, c) | None => (false, cur) end.
+Proof.
+  destruct (spec_colour_strict t) as [[[[a r] g] b]|] eqn:E.
+  - pose proof (strict_parse _ _ _ _ _ E) as P. unfold bytes in *. rewrite P. reflexivity.
+  - destruct (color_parse (Some t)) as [c|]; [|reflexivity]. unfold pcol. rewrite pcol_eta. reflexivity.
+Qed.
+
+Lemma color_pset_spec cur s : (sok (fst (color_pset cur s)), snd (color_pset cur s)) = col_apply cur s.
+Proof.
+  unfold col_apply. destruct s as [t o|v|x].
+  - destruct t as [[|c t]|]; try reflexivity.
+    unfold den_col. rewrite parse_or_strict. unfold color_pset, src_str. unfold bytes in *.
+    destruct (color_parse (Some (c :: t))); reflexivity.
+  - destruct v; try reflexivity.
+    destruct s as [[|c t]|]; try reflexivity.
+    unfold den_col. rewrite parse_or_strict. unfold color_pset, src_str. unfold bytes in *.
+    destruct (color_parse (Some (c :: t))); reflexivity.
+  - reflexivity.
 Qed.
